@@ -76,7 +76,7 @@ CLAIMED = {
             GEN_NOTE + " powell/bfgs/lbfgs/bayesian_opt not covered.", "DESIGN.md 4/C19"),
     "C20": ("inductive step from an arbitrary valid state, symbolic execution of UnionFind/FenwickTree methods with z3 (parents, ranks, array contents, operands symbolic)",
             "Bounded model checking of the real methods: for every n in the bound, every state satisfying the representation invariant, every operand and every value, z3 proves RI is preserved and the answer equals the abstract partition / array answer; base case (constructors) proved for the same n. One inductive step covers histories of any length.",
-            GEN_NOTE + " n bounded (UnionFind <=4 quick/<=6 thorough, Fenwick <=8/<=16).",
+            GEN_NOTE + " n bounded (UnionFind <=4 quick/<=5 thorough, Fenwick <=8/<=16).",
             "DESIGN.md 4/C20"),
 }
 
